@@ -71,6 +71,7 @@ static void on_hook(int point, const void* obj, uint64_t a, uint64_t b) {
     case SEM_ADD:      emit("h SEM_ADD %s %lu %lu by %s", o(), (unsigned long)a, (unsigned long)b, cur().c_str()); break;
     case SEM_SUB:      emit("h SEM_SUB %s %lu %d by %s", o(), (unsigned long)a, (int)b, cur().c_str()); break;
     case SEM_PASS:     emit("h SEM_PASS %s %lu by %s", o(), (unsigned long)a, cur().c_str()); break;
+    case GUARD:        if (!a) emit("guard-violation %s site=%lu", o(), (unsigned long)b); break;   // a region the models treat as atomic under its spinlock was entered without it
     case SEM_RESUME:   emit("h SEM_RESUME %s %lu %s", o(), (unsigned long)a, name_of((const void*)b).c_str()); break;
     case HEAP_PUSH: case HEAP_POP: case HEAP_POP_FRONT:
         if (log_heap) emit("h %s %s %s", point == HEAP_PUSH ? "HEAP_PUSH" : point == HEAP_POP ? "HEAP_POP" : "HEAP_POP_FRONT", o(), dl(a).c_str());
